@@ -72,6 +72,7 @@ func cmdCheck(args []string) {
 	replayPath := fs.String("replay", "", "replay a stored counterexample vector natively instead of checking")
 	keep := fs.Bool("keep", false, "keep work directory")
 	noNative := fs.Bool("no-native", false, "skip native runs (development only; never for registered checks)")
+	noCross := fs.Bool("no-cross", false, "skip the cross-solver re-discharge (development only)")
 	fs.Parse(args)
 	if *tier == "" {
 		*tier = os.Getenv("VERIF_TIER")
@@ -185,6 +186,8 @@ func cmdCheck(args []string) {
 	rng.Shuffle(len(jobs), func(i, j int) { jobs[i], jobs[j] = jobs[j], jobs[i] })
 
 	results := make([]InstanceResult, len(jobs))
+	smtDir := filepath.Join(work, "smt")
+	os.MkdirAll(smtDir, 0o755)
 	var wg sync.WaitGroup
 	ch := make(chan int)
 	for w := 0; w < *workers; w++ {
@@ -210,6 +213,14 @@ func cmdCheck(args []string) {
 				if j.spec.Timeout > 0 {
 					cfg.timeout = time.Duration(j.spec.Timeout) * time.Second
 				}
+				if !*noCross {
+					cfg.logDir = smtDir
+					cfg.logCap, cfg.crossWall = 256<<10, 40*time.Second
+					if *tier == "thorough" {
+						cfg.logCap, cfg.crossWall = 1<<20, 120*time.Second
+					}
+					cfg.crossSolvers = []string{"z3-new", "cvc5"}
+				}
 				results[i] = runInstance(sh, j.fn, j.params, cfg)
 			}
 		}()
@@ -234,6 +245,29 @@ func cmdCheck(args []string) {
 		solverTime += r.SolverTime
 		for _, s := range r.Inconclusive {
 			inconclusive = append(inconclusive, fmt.Sprintf("%s%v: %s", shortName(r.Func), r.Params, s))
+		}
+	}
+	// cross-solver re-discharge: the first queries of every instance (a transcript prefix) decided again by z3 5.x and cvc5
+	cross := map[string]map[string]interface{}{}
+	for _, r := range results {
+		for _, c := range r.Cross {
+			m := cross[c.Solver]
+			if m == nil {
+				m = map[string]interface{}{"queries": 0, "agree": 0, "unknown_or_timeout": 0, "disagree": 0, "wall_s": 0.0, "instances": 0}
+				cross[c.Solver] = m
+			}
+			m["queries"] = m["queries"].(int) + c.Queries
+			m["agree"] = m["agree"].(int) + c.Agree
+			m["unknown_or_timeout"] = m["unknown_or_timeout"].(int) + c.Unknown
+			m["disagree"] = m["disagree"].(int) + c.Disagree
+			m["wall_s"] = m["wall_s"].(float64) + c.Wall.Seconds()
+			m["instances"] = m["instances"].(int) + 1
+			if c.Disagree > 0 {
+				inconclusive = append(inconclusive, "SOLVER-DISAGREEMENT: "+c.FirstDisagreement)
+			}
+			if c.Err != "" && c.Queries == 0 {
+				m["error"] = c.Err
+			}
 		}
 	}
 	// reach witnesses
@@ -446,6 +480,7 @@ func cmdCheck(args []string) {
 			"bounds":                 spec.Bounds,
 			"queries":                map[string]int{"total": queries, "sat": nsat, "unsat": nunsat, "unknown": nunk},
 			"solver":                 "z3 4.8.12 (z3 -in, incremental push/pop)",
+			"cross_solver_recheck":   cross,
 			"solver_time_s":          solverTime.Seconds(),
 			"load_ssa_time_s":        loadTime.Seconds(),
 			"reach_witnesses":        sortedKeys(sh.reach),
